@@ -49,7 +49,7 @@ func (w *World) canon(v ssa.Value, d int) string {
 	if v == nil {
 		return "<nil>"
 	}
-	if d > 14 {
+	if d > 24 {
 		return "…"
 	}
 	switch x := v.(type) {
